@@ -145,3 +145,17 @@ package goja
 //@   props C03
 //@   requires vm != nil && len(vm.callStack) > 0
 //@   ensures len(vm.callStack) == old(len(vm.callStack))-1 [one-less]
+
+// Generator return(): walking the generator's own try frames from the innermost one, the iterators
+// and references opened inside a frame are closed BEFORE the frame is popped (so that an exception
+// thrown by an iterator's return() is still seen by that frame's catch), and a finally is entered
+// through a latched frame.
+//@ stable generator.vm
+//@ func (*generator).enterNextFinallyFrame
+//@   props C08
+//@   requires g != nil && g.vm != nil
+//@   loop 1 invariant g.vm == old(g.vm) [vm-fixed]
+//@   site popTryFrame#1 vars tf *tryFrame, vm *vm
+//@   site popTryFrame#1 requires len(vm.iterStack) == int(tf.iterLen) && len(vm.refStack) == int(tf.refLen) [iterators-closed-before-frame-is-popped]
+//@   exitvars tf *tryFrame, vm *vm, ex *Exception
+//@   ensures canContinue && ex == nil ==> tf != nil && tf.finallyPos == -1 && tf.catchPos == tryPanicMarker && vm.pc >= 0 && len(vm.iterStack) == int(tf.iterLen) [finally-entered-latched-with-iterators-closed]
